@@ -47,11 +47,18 @@ def run_rules(mod, ctx):
     ctx.inconclusive = None
     try:
         mod.run(ctx)
+        from . import common
+        ctx.attempt(common.run, ctx.prop)
         if ctx.inconclusive_rules:
             raise AnalysisError(" | ".join(ctx.inconclusive_rules))
         ctx.check_floors()
     except AnalysisError as e:
         ctx.inconclusive = str(e)
+
+
+def _common_explanation(prop):
+    from . import common
+    return common.EXPLANATION % {"p": prop}
 
 
 def main(argv=None):
@@ -113,7 +120,7 @@ def main(argv=None):
         stats = prog.stats() if a.tier == "thorough" else {
             "modules": len(prog.modules), "classes": len(prog.classes), "functions": len(prog.functions)}
         coverage = {
-            "explanation": mod.EXPLANATION,
+            "explanation": mod.EXPLANATION + _common_explanation(prop),
             "evaluations": len(ctx.instances),
             "distinct_nontrivial": distinct,
             "rule": "one evaluation = one rule instance bound to a construct of /repo's current source "
